@@ -30,6 +30,12 @@ class WriteTokensTransformer(Transformer_InPlace):
         self.tokens = tokens
         self.term_subs = term_subs
 
+    def _call_userfunc(self, tree, new_children=None):
+        # Every rule is handled by __default__. Looking the rule name up as an attribute would
+        # find our own attributes and methods for rules named "tokens", "term_subs", "transform", ...
+        children = new_children if new_children is not None else tree.children
+        return self.__default__(tree.data, children, tree.meta)
+
     def __default__(self, data, children, meta):
         if not getattr(meta, 'match_tree', False):
             return Tree(data, children)
